@@ -7,7 +7,7 @@
    [em] ranges over the three encoding modes, [more] over more_available, codes over all lists. *)
 From Coq Require Import ZArith List Bool.
 Import ListNotations.
-From Urwid Require Import PyBase escape_table_gen KeyInput KeyInputProofs.
+From Urwid Require Import PyBase escape_table_gen KeyInput KeyInputProofs KeyInputSgr.
 Open Scope Z_scope.
 
 (* ---------- clause 1: terminates, consumes strictly left to right ---------- *)
@@ -40,40 +40,21 @@ Print Assumptions trie_builds.
 
 (* ---------- clause 1: without raising ---------- *)
 
-Definition never_raises_full : Prop :=
+(* every non-empty byte string, every encoding, more_available or not: process_keyqueue returns
+   events or raises MoreInputRequired, never anything else.  (Was refuted before fix 228c9b3: ESC in
+   front of a cursor position report raised AttributeError; the corpus keeps those inputs.) *)
+Theorem never_raises :
   forall em c more e, Forall is_byte c -> c <> [] -> process_keyqueue em c more <> OErr e.
+Proof. intros em c more e _. exact (process_no_err em more c e). Qed.
+Print Assumptions never_raises.
 
-(* REFUTED by the faithful model, and the witness raises on the implementation too
-   (escape.process_keyqueue([27,27,91,53,59,53,82], False) -> AttributeError): a finding. *)
-Theorem never_raises_refuted : ~ never_raises_full.
-Proof.
-  intros H. apply (H Utf8 [27; 27; 91; 53; 59; 53; 82] false AttributeErrorK).
-  - repeat constructor; unfold is_byte; cbn; intuition discriminate.
-  - discriminate.
-  - vm_compute. reflexivity.
-Qed.
-Print Assumptions never_raises_refuted.
-
-(* what does hold: that is the ONLY way a non-empty byte string can raise - AttributeError when one
-   or more ESC bytes stand in front of ESC + a complete cursor position report *)
-Theorem never_raises_partial :
-  forall em more c e,
-    Forall is_byte c -> c <> [] -> process_keyqueue em c more = OErr e ->
-    e = AttributeErrorK /\
-    exists n tl x y rest, (1 <= n)%nat /\ c = repeat 27 n ++ 27 :: tl /\
-      trie_get tl more = OOk (Some (CursorPos x y, rest)).
-Proof. exact process_err_shape. Qed.
-Print Assumptions never_raises_partial.
-
-(* in particular a Screen fed a byte stream without two adjacent ESC bytes never raises, for every
-   schedule of reads and completion alarms *)
-Theorem screen_never_raises_without_double_esc :
+(* a hooked Screen never raises, for every schedule of reads and completion alarms *)
+Theorem screen_never_raises :
   forall em ops st,
     Forall is_byte (st ++ concat (map feed_bytes ops)) ->
-    no_double_esc (st ++ concat (map feed_bytes ops)) ->
     snd (run em st ops) = None.
-Proof. exact run_no_err. Qed.
-Print Assumptions screen_never_raises_without_double_esc.
+Proof. intros em ops st _. exact (run_no_err em ops st). Qed.
+Print Assumptions screen_never_raises.
 
 (* ---------- clause 2: fragmentation ---------- *)
 
@@ -135,7 +116,8 @@ Print Assumptions fragmentation_invariant_then.
 
 (* when the alarm fires with codes pending: one callback whose raw codes are exactly the pending
    codes and whose events are those codes decoded with more_available = False (as they stand);
-   nothing stays pending; the only other possibility is the exception of never_raises_partial *)
+   nothing stays pending (the PErr branch is impossible by never_raises; kept so that the statement
+   does not depend on it) *)
 Theorem timeout_flushes :
   forall em st, st <> [] ->
     match parse_loop (length st) em st false [] with
@@ -205,17 +187,45 @@ Theorem cursor_position_decodes :
 Proof. exact cursor_position_decodes_proof. Qed.
 Print Assumptions cursor_position_decodes.
 
-(* NOT proved (correspondence + oracle only): the SGR report ESC [ < b ; x ; y M|m with decimal
-   numerals decodes to one mouse event with coordinates (x - 1, y - 1).  The model implements it
-   (py_int: CPython int() parsing incl. whitespace, sign, underscores, 4300-digit limit) and is
-   compared with the implementation on all button values and malformed forms every run. *)
-Definition sgr_mouse_decodes_full : Prop :=
+(* the documented names and buttons of X10 reports in the xterm range: modifiers 'shift '/'meta '/
+   'ctrl ' for bits 4/8/16 of b, 'mouse drag' for bit 32 else 'mouse press', button (b & 3) + 1,
+   + 3 for the wheel bit 64 (docs/manual/userinput.rst) *)
+Theorem x10_mouse_documented :
+  forall b x y, 0 <= b < 128 -> Z.land b 3 <> 3 ->
+    x10_event (b + 32) x y
+      = Mouse (x10_doc_name b) (Z.land b 3 + 1 + (if Z.land b 64 =? 0 then 0 else 3))
+              ((x - 33) mod 256) ((y - 33) mod 256).
+Proof. exact x10_documented_proof. Qed.
+Print Assumptions x10_mouse_documented.
+
+(* SGR (1006) mouse report ESC [ < b ; x ; y M|m with decimal parameters (leading zeros allowed, as
+   int() allows them; at most 4300 digits each, CPython's int() limit): exactly one mouse event,
+   the documented one (sgr_doc_event: modifiers, press/drag/release, button, coordinates x-1, y-1),
+   what follows untouched.  Goes through the model of the M/m scan, split(";") and int(). *)
+Theorem sgr_mouse_decodes :
   forall em bs xs ys t rest more,
-    numeral bs = true -> numeral xs = true -> numeral ys = true -> (t = 77 \/ t = 109) ->
+    digits bs -> digits xs -> digits ys -> (t = 77 \/ t = 109) ->
     (length bs <= 4300)%nat -> (length xs <= 4300)%nat -> (length ys <= 4300)%nat ->
-    exists name button,
-      process_keyqueue em (27 :: 91 :: 60 :: bs ++ 59 :: xs ++ 59 :: ys ++ t :: rest) more
-        = OOk ([Mouse name button (digits_val xs - 1) (digits_val ys - 1)], rest).
+    process_keyqueue em (27 :: 91 :: 60 :: bs ++ 59 :: xs ++ 59 :: ys ++ t :: rest) more
+      = OOk ([sgr_doc_event (digits_val bs) (digits_val xs) (digits_val ys) t], rest).
+Proof. exact sgr_mouse_decodes_proof. Qed.
+Print Assumptions sgr_mouse_decodes.
+
+(* a structurally well-formed 2-4 byte character (lead byte announcing n continuation bytes, all
+   10xxxxxx) that the decoder table accepts (utf8_decode: not overlong, not a surrogate, at most
+   U+10FFFF) is reported as exactly that character in utf8 mode, what follows untouched.
+   That [utf8_decode] IS CPython's strict decoder on such input is trusted (correspondence:
+   boundary code points, all overlong/surrogate/out-of-range forms, all lead x second bytes). *)
+Theorem utf8_char_decodes :
+  forall code n conts cp rest more,
+    utf8_check n (conts ++ rest) = U8Good -> length conts = n ->
+    utf8_decode code n conts = Some cp ->
+    127 < code < 256 ->
+    (Z.land code 224 =? 192) = (n =? 1)%nat -> (Z.land code 240 =? 224) = (n =? 2)%nat ->
+    (Z.land code 248 =? 240) = (n =? 3)%nat ->
+    process_keyqueue Utf8 (code :: conts ++ rest) more = OOk ([Key [cp]], rest).
+Proof. exact utf8_char_decodes_proof. Qed.
+Print Assumptions utf8_char_decodes.
 
 (* ---------- non-vacuity: the model computes, the hypotheses are satisfiable ---------- *)
 From Coq Require Import String.
@@ -248,6 +258,22 @@ Example passthrough_examples :
   passthrough_byte Utf8 128 = true /\ passthrough_byte Utf8 255 = true /\ passthrough_byte Utf8 195 = false /\
   passthrough_byte Wide 161 = false /\ passthrough_byte Narrow 161 = true /\ passthrough_byte Narrow 27 = false.
 Proof. vm_compute. auto 10. Qed.
+
+Example utf8_hypotheses_satisfiable :
+  utf8_check 2 ([184; 150] ++ [97]) = U8Good /\ utf8_decode 228 2 [184; 150] = Some 19990 /\
+  (Z.land 228 240 =? 224) = true.
+Proof. vm_compute. auto. Qed.
+
+Example sgr_hypotheses_satisfiable :
+  digits [48; 48; 54; 53] /\ digits_val [48; 48; 54; 53] = 65 /\
+  sgr_doc_event 65 12 3 109 = Mouse (s2z "mouse release") 5 11 2.
+Proof. repeat split; try discriminate; vm_compute; reflexivity. Qed.
+
+Example esc_before_cursor_position_report :
+  process_keyqueue Utf8 [27; 27; 91; 53; 59; 53; 82] false = OOk ([Key (s2z "esc"); CursorPos 4 4], []) /\
+  process_keyqueue Utf8 [27; 27; 27; 91; 53; 59; 53; 82; 65] true
+    = OOk ([Key (s2z "esc"); Key (s2z "esc"); CursorPos 4 4], [65]).
+Proof. vm_compute. auto. Qed.
 
 Example timeout_needed_for_lone_esc :
   process_keyqueue Utf8 [27] true = OMore /\ process_keyqueue Utf8 [27] false = OOk ([Key (s2z "esc"%string)], []).
